@@ -255,7 +255,15 @@ func c07View(c *Ctx, files map[string]string, jsonCfg string, tag string) (map[s
 		f["luahelper.json"] = jsonCfg
 	}
 	ws := c.NewWorkspace(f)
-	srv, err := StartServer(ServerOpts{Root: ws.Root, Tag: tag})
+	opts := ServerOpts{Root: ws.Root, Tag: tag}
+	if jsonCfg != "" && len(jsonCfg)%2 == 1 {
+		// config-file mode, half of the runs as a client that starts the server locally (LocalRun): the names the
+		// configuration file ignores stay ignored
+		opts.Init = allOnInit()
+		opts.Init["LocalRun"] = true
+		c.Count("config_file_runs_with_local_run", 1)
+	}
+	srv, err := StartServer(opts)
 	if err != nil {
 		if srv != nil {
 			srv.Close()
